@@ -978,12 +978,22 @@ impl SimFile {
         } else {
             self.cursor
         };
-        self.fs.mutate(JOp::Write {
+        let result = self.fs.mutate(JOp::Write {
             inode: self.inode,
             offset,
             data: Arc::new(buf.to_vec()),
             path: self.path.clone(),
-        })?;
+        });
+        if let Err(e) = result {
+            // a failing write may have put part of its bytes into the file (short write, error
+            // after effect): like a real file offset, the cursor is then behind those bytes
+            let st = self.fs.shared.state.lock();
+            let len_now = st.core.nodes.get(&self.inode).map_or(0, |n| n.data.len() as u64);
+            if len_now > offset {
+                self.cursor = len_now.min(offset + buf.len() as u64);
+            }
+            return Err(e);
+        }
         self.cursor = offset + buf.len() as u64;
         Ok(buf.len())
     }
